@@ -8,7 +8,7 @@ from . import translate as T
 CLASSES = ['allocator_storage', 'locked_allocator', 'fallback_allocator', 'tracked_allocator', 'aligned_allocator',
            'binary_segregator', 'memory_resource_adapter', 'memory_resource_allocator', 'std_allocator',
            'allocator_deallocator', 'allocator_deleter', 'allocator_polymorphic_deallocator', 'allocator_polymorphic_deleter',
-           'threshold_segregatable', 'deeply_tracked_block_allocator']
+           'threshold_segregatable', 'deeply_tracked_block_allocator', 'basic_allocator']
 
 TU = '''#include "allocator_storage.hpp"
 #include "threading.hpp"
